@@ -333,6 +333,7 @@ impl Catalog {
 
         // Collect all user relations
         let schema = meta_table_schema();
+        let mut dead_roots: Vec<PageId> = Vec::new();
         let relations_to_vacuum: Vec<(ObjectId, PageId, Schema)> = {
             let mut meta_table = builder.build_tree(self.meta_table);
 
@@ -356,6 +357,13 @@ impl Catalog {
                                 relation.root(),
                                 relation.schema().clone(),
                             ));
+                        } else {
+                            // Dead catalog row (dropped by a committed transaction, or created
+                            // by one that aborted): nobody can reach the relation any more.
+                            let layout = reader.parse_last_version(bytes)?;
+                            let tuple = TupleRef::new(bytes, layout);
+                            let row = tuple.to_row_with(&schema)?;
+                            dead_roots.push(Relation::from_meta_table_row(row).root());
                         }
                         Ok::<(), TupleError>(())
                     })??;
@@ -364,6 +372,12 @@ impl Catalog {
 
             relations
         };
+
+        // Release the pages of dead relations (deferred from DROP).
+        for root in dead_roots {
+            let mut tree = builder.build_tree_mut(root);
+            tree.dealloc()?;
+        }
 
         // Vacuum each user relation
         for (object_id, root, relation_schema) in relations_to_vacuum {
@@ -535,12 +549,9 @@ impl Catalog {
             }
         };
 
-        // First, deallocate the relation.
-        // Deallocate the relation.
-      {
-            let mut tree = builder.build_tree_mut(rel.root());
-            tree.dealloc()?;
-        }
+        // The pages of the relation are not released here: until this transaction commits the
+        // drop can still be rolled back, and older snapshots may still read the relation.
+        // VACUUM releases them once the catalog row is dead (see [`Catalog::vacuum`]).
 
         // Obtain the relation metadata
         let relation_id = rel.object_id();
